@@ -157,7 +157,7 @@ PROPS["C12"] = {
 
 PROPS["C06"] = {
     "imports": JSON_IMPORTS + " Spec.Lnotab Spec.Dis Model.ViewSer Proofs.C02_Statements Proofs.C06_Statements", "prelude": "Definition cfg := Cfg{TAG}.cfg.",
-    "level_text": "Theorems: normalize is idempotent and respects equality; every history over {JSON round trip, normalize} of any length leaves the normal form unchanged (induction over the history); canonicity: the normalized blocks of decoded data are a function of CPython's reading (dis view) of the code alone, so code objects with equal views and equal kept header fields normalize to EQUAL data whatever their table order, unreferenced entries, redundant EXTENDED_ARG prefixes or CO_NESTED. Stability under the code round trip of NORMALIZED data and the concrete mutators (permutation, padding, prefixes) are decided by the history / variant oracle and by comparing the model's normal forms of both variants", "level_note": "the clause 'stable under to_code/from_code after normalize' needs encoder correctness (C03 K2) and is not yet a theorem: it is covered by the history oracle; that the mutators preserve the dis view is checked per variant by the model (variants group), not proved", "trusted_base": COMMON_TB, "assumptions": [],
+    "level_text": "Theorems: normalize is idempotent and respects equality; every history over {JSON round trip, normalize} of any length leaves the normal form unchanged (induction over the history); canonicity: the normalized blocks of decoded data are a function of CPython's reading (dis view) of the code alone, so code objects with equal views and equal kept header fields normalize to EQUAL data whatever their table order, unreferenced entries, redundant EXTENDED_ARG prefixes or CO_NESTED. Stability under the code round trip is a theorem as well (C06_normal_form_stable_under_the_code_roundtrip: decode, normalize, to_code, from_code, normalize gives data == the first normal form, for every configuration with a well-formed flag table naming CO_NOFREE - true of the four generated ones; the unrestricted statement is refuted in Coq). The concrete mutators (permutation, padding, prefixes) and mixed histories are run by the history / variant oracle and by comparing the model's normal forms of both variants", "level_note": "mixed histories interleaving code and JSON round trips follow by alternating the two stability theorems but are not stated as one theorem; that the mutators preserve the dis view is checked per variant by the model (variants group), not proved", "trusted_base": COMMON_TB, "assumptions": [],
     "rule": "histories of 1-8 (thorough 1-20) operations over {code round trip, JSON round trip, normalize} on corpus / generated objects; variants built by independent mutators "
             "(table permutation with operand renumbering, padding with unreferenced entries, CO_NESTED toggle, redundant EXTENDED_ARG 0 prefix with jump re-targeting and rebuilt line table); distinct = distinct (object, history or variant)",
     "replay_hint": "compile the named source; apply data.history / data.variant (harness/props/mutators.py) and compare normalize() results",
